@@ -3,6 +3,7 @@ package alephium
 import (
 	"context"
 	"encoding/hex"
+	"time"
 
 	sdk "github.com/alephium/go-sdk"
 	"github.com/alephium/wormhole-fork/node/pkg/vaa"
@@ -60,9 +61,12 @@ func (w *Watcher) handleObsvRequest(ctx context.Context, logger *zap.Logger, cli
 				continue
 			}
 
+			// The wall-clock part of the confirmation rule applies here exactly as on the polling path.
+			now := time.Now().UnixMilli()
 			confirmed := make([]*reobservedEvent, 0)
 			for _, event := range events {
-				if event.header.Height+int32(event.confirmations) <= *currentHeight {
+				duration := getConfirmationDuration(w.isMainnet, event.isTransfer, event.confirmations)
+				if event.header.Height+int32(event.confirmations) <= *currentHeight && event.header.Timestamp+duration <= now {
 					logger.Info("re-observed event",
 						zap.String("txId", txId),
 						zap.String("blockHash", blockHash),
@@ -162,6 +166,7 @@ func (w *Watcher) getGovernanceEventsByTxId(
 			msg.consistencyLevel,
 			header,
 			txId,
+			msg.IsTransferTokenVAA(),
 		})
 	}
 	return reobservedEvents, nil
@@ -172,4 +177,5 @@ type reobservedEvent struct {
 	confirmations uint8
 	header        *sdk.BlockHeaderEntry
 	txId          string
+	isTransfer    bool
 }
